@@ -88,7 +88,8 @@ def run(prog, rep, tier='quick', config='default'):
         for b in f.blocks.values():
             for s in b['stmts']:
                 for pl in f.stmt_sources(s):
-                    if any(isinstance(e, dict) and ('idx' in e or 'cidx' in e) for e in pl['p']) and 'office::DataType' in f.ty.get(pl['l'], ''):
+                    if any(isinstance(e, dict) and ('idx' in e or 'cidx' in e) for e in pl['p']) and \
+                            ('office::DataType' in f.ty.get(pl['l'], '') or 'office::DataType' in pl.get('t', '')):
                         rep.violation('R18b', '%s|positional-index' % f.name, where=f.where(s), fn=f.name,
                                       detail='the converter indexes a row by position')
     if getters >= 5:
